@@ -86,6 +86,27 @@ class Net:
     def pending(self) -> bool:
         return any(l.queue for l in self.links)
 
+    def micro(self, frag: str) -> None:
+        """one small step of the world: either one loop iteration, or one piece delivered on one link (no settling)"""
+        r = self.r
+        live = [l for l in self.links if l.queue]
+        if not live or r.random() < 0.5:
+            self.loop.tick()
+        else:
+            link = r.choice(live)
+            seq, data = link.queue[0]
+            n = len(data) if frag == "whole" else max(1, min(len(data), r.choice([1, 64, 1024, len(data)])))
+            piece, rest = data[:n], data[n:]
+            if rest:
+                link.queue[0] = (seq, rest)
+            else:
+                link.queue.pop(0)
+            link.reader.feed_data(piece)
+            self.delivered_bytes += len(piece)
+        for l in self.links:
+            if not l.queue and getattr(l, "writer", None) is not None and l.writer.waiters:
+                l.writer.release()
+
     def pump(self, mode: str, frag: str, max_rounds: int = 200000) -> bool:
         """deliver everything, ticking the loop in between, until nothing is in flight and nothing is ready"""
         r = self.r
@@ -308,6 +329,13 @@ class SysWorld:
             self.add_snooper(op["owner"], op["target"], None if op["name"] == NONE else op["name"])
         elif o == "rehandshake":
             self.run(lambda: self.clients[op["client"]].handshake())
+        elif o == "storm":
+            # driver-side operations with only a few small steps of the world in between (single loop iterations, single pieces
+            # delivered): later messages are routed while earlier ones are written, drained, queued behind the sender lock
+            for sub, k in zip(op["ops"], op["micro"]):
+                self.dw.apply(sub)
+                for _ in range(k):
+                    self.net.micro(self.frag)
         elif o == "burst":
             # several driver-side operations back to back, the loop running in between but nothing delivered yet: the
             # connections are under back-pressure while the later messages are routed
@@ -360,6 +388,15 @@ def c01_trace(r, tier: str) -> List[dict]:
                 op = {"o": "assign", "v": vi, "e": ei, "x": DV.domain(v["kind"], r)}
             elif x < 0.38:
                 op = {"o": "setvalue", "v": vi, "e": ei, "x": DV.domain(v["kind"], r)}
+            elif x < 0.44 and v["kind"] in ("text", "number", "light"):
+                k = r.randint(3, 7)
+                subs = []
+                for _ in range(k):
+                    if r.random() < 0.8:
+                        subs.append({"o": "assign", "v": vi, "e": r.randint(1, len(v["elems"])), "x": DV.domain(v["kind"], r)})
+                    else:
+                        subs.append({"o": "state", "v": vi, "st": r.choice(DV.LIGHTS)})
+                op = {"o": "storm", "ops": subs, "micro": [r.choice([0, 1, 1, 2, 3, 5]) for _ in subs]}
             elif x < 0.46:
                 op = {"o": "state", "v": vi, "st": r.choice(DV.LIGHTS)}
             elif x < 0.56:
